@@ -340,8 +340,21 @@ def rule_eq_own_origin(model: Model, rule_id: str = 'C16-R6') -> RuleResult:
     r.instances += 1
     r.analysed.add(f.qualname)
     lits = [nz.literal(n.ast, n)[0] for n in cfg.nodes if n.kind == 'cond' and '__origin__' in nz.literal(n.ast, n)[0]]
-    r.sample({'class test': lits})
-    if lits and all(x.count(".__dict__.get('__origin__'") == 2 for x in lits):
+    # the marker may be read by a helper of the module (it follows the chain of markers, C16-R13): then the helper reads it from
+    # the namespace of each class it visits (`'__origin__' in c.__dict__`, `c.__dict__[...]`), never with getattr / hasattr
+    helper_ok = None
+    for c in ast.walk(f.node):
+        if isinstance(c, ast.Call):
+            g = model.functions.get(model.resolve(c.func, f.module, f) or '')
+            if g is not None and g.module is f.module and '__origin__' in unparse(g.node):
+                reads = [x for x in ast.walk(g.node) if isinstance(x, ast.Constant) and x.value == '__origin__']
+                bad_reads = [x for x in ast.walk(g.node) if isinstance(x, ast.Call) and isinstance(x.func, ast.Name)
+                             and x.func.id in ('getattr', 'hasattr') and any(isinstance(a_, ast.Constant) and a_.value == '__origin__' for a_ in x.args)]
+                dict_reads = len(re.findall(r"__dict__|vars\(", unparse(g.node)))
+                helper_ok = bool(reads) and not bad_reads and dict_reads >= 1 and (helper_ok is not False)
+                r.analysed.add(g.qualname)
+    r.sample({'class test': lits, 'helper reads the marker from own namespaces': helper_ok})
+    if (lits and all(x.count(".__dict__.get('__origin__'") == 2 for x in lits)) or (not lits and helper_ok):
         r.ok()
     else:
         r.fail(f.qualname, f"class test {lits}", f.loc(),
